@@ -88,9 +88,72 @@ func rowsC(ds []rowDesc) any {
 
 const kMapSI = "c10:mapsi" // map[string]int
 
+// map kinds with other key types; the keys are described as "<type>:<text>" (i int, s string,
+// b bool, f float64), the values are strings
+const (
+	kMapAny   = "c10:anymap"   // map[any]any
+	kMapFloat = "c10:floatmap" // map[float64]string
+	kMapBool  = "c10:boolmap"  // map[bool]string
+	kMapID    = "c10:idmap"    // map[rowID]string   (named integer key type)
+	kMapCode  = "c10:codemap"  // map[rowCode]string (named string key type)
+)
+
+type rowID int
+type rowCode string
+
+func typedKey(k string) any {
+	if len(k) < 2 || k[1] != ':' {
+		return k
+	}
+	switch k[0] {
+	case 'i':
+		n, _ := strconv.Atoi(k[2:])
+		return n
+	case 'b':
+		return k[2:] == "true"
+	case 'f':
+		f, _ := strconv.ParseFloat(k[2:], 64)
+		return f
+	}
+	return k[2:]
+}
+
 // localGo builds the values of the local kinds; ok is false for every other kind.
 func localGo(v vals.V) (any, bool) {
 	switch v.K {
+	case kMapAny:
+		out := make(map[any]any, len(v.M))
+		for k, e := range v.M {
+			out[typedKey(k)] = e.S
+		}
+		return out, true
+	case kMapFloat:
+		out := make(map[float64]string, len(v.M))
+		for k, e := range v.M {
+			f, _ := typedKey(k).(float64)
+			out[f] = e.S
+		}
+		return out, true
+	case kMapBool:
+		out := make(map[bool]string, len(v.M))
+		for k, e := range v.M {
+			bk, _ := typedKey(k).(bool)
+			out[bk] = e.S
+		}
+		return out, true
+	case kMapID:
+		out := make(map[rowID]string, len(v.M))
+		for k, e := range v.M {
+			n, _ := typedKey(k).(int)
+			out[rowID(n)] = e.S
+		}
+		return out, true
+	case kMapCode:
+		out := make(map[rowCode]string, len(v.M))
+		for k, e := range v.M {
+			out[rowCode(fmt.Sprint(typedKey(k)))] = e.S
+		}
+		return out, true
 	case kMapSI:
 		out := make(map[string]int, len(v.M))
 		for k, e := range v.M {
